@@ -51,6 +51,9 @@ REQUEST     raw (bytes), ops_before, ops_after, timeout_ms, split_at + split_pau
 OPS         {"op": "update_key", guid, key, incarnation} {"op": "clear_key"}
             {"op": "set_rules", "endpoint": "wireserver|imds|hostga", "item": {...}|None}
             {"op": "fail_remove", "value": bool} {"op": "insert_audit", "port", "audit"} {"op": "remove_audit", "port"}
+            {"op": "summary_burst", "label", "threads": 8, "keys": 200}  conservation leg: `threads` OS threads call
+              add_one_failed_connection_summary at the same instant for a never-seen key, for `keys` fresh keys (userName
+              "burst-<label>-<k>"); appends a snapshot {label, burst: {adds (calls that returned Ok), keys, threads}, summary, status_json}
             {"op": "barrier", "name", "n", "timeout_ms": 60000}  rendezvous of concurrent connections: continue when n
               participants have arrived at `name` (e.g. in ops_before of each connection's request: all requests are sent at once)
             {"op": "wait_trace", "port", "lookups": n, "timeout_ms": 3000}  wait until the H1 trace shows n lookups for the
